@@ -41,8 +41,17 @@ def extra(chk):
                     "of a paged search); used IDs (accessor) and routing-table keys (last driver snapshot) must be empty there" % (n, n2))
 
 
+def extra_all(chk):
+    extra(chk)
+    for flag in ("LeakSearchIdOnDone", "AbandonKeepsTargetId", "StaleInsertAfterScrub"):
+        L.must_fail(chk, flag, "MCConn2_dev_%s.cfg" % flag, "NoLeak")
+    chk.rule.append("non-vacuity: the three instances of the model with a fixed defect switched back on (the ID of a search kept "
+                    "after SearchResultDone; the target's ID kept by Abandon; a routing entry inserted for a caller who already "
+                    "gave up) must each violate NoLeak")
+
+
 def run(tier):
-    return L.run_lane("C13", tier, MC[tier], PROFILES[tier], RULE, scripts=SCRIPTS[tier], selftests=[("snapshot", L.corrupt_snapshot, ("inv:NoLeak", "quiet:more"))], extra=extra)
+    return L.run_lane("C13", tier, MC[tier], PROFILES[tier], RULE, scripts=SCRIPTS[tier], selftests=[("snapshot", L.corrupt_snapshot, ("inv:NoLeak", "quiet:more"))], extra=extra_all)
 
 
 def replay(path):
